@@ -13,7 +13,7 @@
 #include <sstream>
 #include <iostream>
 
-template<typename T> struct Src { static Fastor::Tensor<T,64>& get() { static Fastor::Tensor<T,64> s; static bool init = false; if (!init) { for (int i = 0; i < 64; ++i) s.data()[i] = (T)(2 + (i * 7) % 11); init = true; } return s; } };
+template<typename T> struct Src { static Fastor::Tensor<T,256>& get() { static Fastor::Tensor<T,256> s; static bool init = false; if (!init) { for (int i = 0; i < 256; ++i) s.data()[i] = (T)(2 + (i * 7) % 11); init = true; } return s; } };
 
 template<typename T, size_t N> struct Fenced1 {           // parent tensor between canaries, like vh_fenced
     alignas(64) T pre[16]; Fastor::Tensor<T,N> A; alignas(64) T post[16];
